@@ -133,6 +133,7 @@ func negotiateCase(domain, ws string, uni bool, tag string) {
 		return
 	}
 	cs["message"] = hxCase(msg)
+	hold(e, msg, cs)
 	checkNegotiateBytes(e, msg, domain, ws, uni, cs)
 	r.Nontrivial("neg|" + tag)
 }
@@ -355,7 +356,8 @@ func challengeCase(c chalCase, tag string) {
 	cs := c.caseMap(raw)
 	var got *ntlm.ChallengeMessage
 	var err error
-	p, v, st := mon.Guard(func() { got, err = ntlm.ParseChallengeMessage(append([]byte{}, raw...)) })
+	in := append([]byte{}, raw...) // the caller's buffer
+	p, v, st := mon.Guard(func() { got, err = ntlm.ParseChallengeMessage(in) })
 	r.Eval(1)
 	switch {
 	case p:
@@ -370,7 +372,9 @@ func challengeCase(c chalCase, tag string) {
 		checkTargetInfoParse(got.TargetInfo, c.pairs, cs)
 		// and on the bytes as written, independent of what the message parser returned
 		checkTargetInfoParse(append([]byte{}, c.spec.TargetInfo...), c.pairs, cs)
+		targetInfoInput(c.spec.TargetInfo, c.pairs, cs)
 	}
+	afterParseChallenge(e, got, c, raw, in, cs)
 	r.Nontrivial("chal|" + tag)
 }
 
@@ -480,6 +484,7 @@ func authenticateCase(c chalCase, user, pw, domain, ws string, tag string) {
 		return
 	}
 	cs["message"] = hxCase(msg)
+	hold(e, msg, cs)
 	checkAuthenticateBytes(e, msg, c.spec.Flags, c.spec.SC, user, pw, domain, ws, cs)
 	r.Nontrivial("auth|" + tag)
 }
@@ -593,7 +598,8 @@ func spnegoInitCase(tok []byte, kind int) {
 	cs := map[string]any{"token_len": len(tok), "token": hxCase(tok), "kind": kind}
 	var out []byte
 	var err error
-	p, v, st := mon.Guard(func() { out, err = spnego.CreateNegTokenInit(append([]byte{}, tok...)) })
+	in := append([]byte{}, tok...) // the caller's buffer
+	p, v, st := mon.Guard(func() { out, err = spnego.CreateNegTokenInit(in) })
 	r.Eval(1)
 	const e = "spnego.CreateNegTokenInit"
 	if p {
@@ -604,7 +610,10 @@ func spnegoInitCase(tok []byte, kind int) {
 		r.Violation(e+":error", fmt.Sprint(err), cs)
 		return
 	}
+	hold(e, out, cs)
+	wrapInput(e, out, in, tok, cs)
 	checkInitBytes(e, out, tok, cs)
+	extractInput("init", out, tok, false, cs)
 	r.Nontrivial(fmt.Sprintf("init|%d|%d", len(tok), kind%4))
 }
 
@@ -663,8 +672,9 @@ func spnegoRespCase(state int, mi int, tok []byte, kind int) {
 	const e = "spnego.CreateNegTokenResp"
 	var out []byte
 	var err error
+	in := append([]byte{}, tok...) // the caller's buffer
 	p, v, st := mon.Guard(func() {
-		out, err = spnego.CreateNegTokenResp(asn1.Enumerated(state), mech.oid, append([]byte{}, tok...))
+		out, err = spnego.CreateNegTokenResp(asn1.Enumerated(state), mech.oid, in)
 	})
 	r.Eval(1)
 	if p {
@@ -676,10 +686,13 @@ func spnegoRespCase(state int, mi int, tok []byte, kind int) {
 		return
 	}
 	cs["spnego_head"] = hexShort(out)
-	in, derr := spnegoRead(out)
+	hold(e, out, cs)
+	wrapInput(e, out, in, tok, cs)
+	in2, derr := spnegoRead(out)
 	if derr != nil {
 		r.Violation(e+":der:"+derr.Error(), fmt.Sprintf("token of %d bytes: %v (head %s)", len(tok), derr, hexShort(out)), cs)
 	} else {
+		in := in2
 		if got, ok := in.Elems[2]; len(tok) > 0 && (!ok || in.Inner[2] != 0x04 || !bytes.Equal(got, tok)) {
 			r.Violation(e+":responsetoken", fmt.Sprintf("independent reader finds a responseToken of %d bytes, wrapped %d", len(got), len(tok)), cs)
 		}
@@ -692,6 +705,7 @@ func spnegoRespCase(state int, mi int, tok []byte, kind int) {
 	}
 	parseRespCheck(out, state, mi, tok, cs)
 	extractCheck("resp", out, tok, cs)
+	extractInput("resp", out, tok, true, cs)
 	r.Nontrivial(fmt.Sprintf("resp|%d|%d|%d|%d", len(tok), state, mi, kind%4))
 }
 
@@ -758,6 +772,7 @@ func spnegoAll() {
 			}
 			parseRespCheck(own, sb, 1+(i%4), tok, cs)
 			extractCheck("resp-own", own, tok, cs)
+			extractInput("resp-own", own, tok, true, cs)
 			r.Nontrivial(fmt.Sprintf("own|%d|%d", n, sb))
 		}
 		if i%120 == 0 {
@@ -798,6 +813,7 @@ func endToEndCase(c chalCase, user, pw, domain, ws string, ownWriter bool, state
 	} else if in, derr := spnegoRead(neg); derr != nil {
 		r.Violation("spnego.CreateNegotiateToken:der:"+derr.Error(), hexShort(neg), cs)
 	} else {
+		hold("spnego.CreateNegotiateToken", neg, cs)
 		checkNegotiateBytes("spnego.CreateNegotiateToken", in.Elems[2], domain, ws, uni, cs)
 	}
 	var out []byte
@@ -816,6 +832,7 @@ func endToEndCase(c chalCase, user, pw, domain, ws string, ownWriter bool, state
 	} else {
 		checkParsedChallenge(e+":challenge", ctx.NTLMChallenge, c, cs)
 	}
+	hold(e, out, cs)
 	in, derr := spnegoRead(out)
 	if derr != nil {
 		r.Violation(e+":der:"+derr.Error(), hexShort(out), cs)
@@ -940,7 +957,7 @@ func anchors() {
 
 func main() {
 	r = mon.Start("C08", "exploration")
-	r.Rule("NEGOTIATE and AUTHENTICATE messages built for generated domain/workstation/user strings (empty, ASCII, BMP, non-BMP; 0..1000 code points and the 65535-byte descriptor limit), both character sets, challenge flag sets crossing UNICODE/OEM x VERSION x EXTENDED_SESSIONSECURITY x TARGET_INFO, read back by an independent MS-NLMP reader; CHALLENGE messages written by an independent writer (0..10 AV pairs, values 0..300 bytes, either payload order, gaps) parsed by the library; SPNEGO wrap/extract for token lengths 0..300, 65400..65700, 2^k+-1 (k<=20), random <=256 KiB, checked by an independent DER walker; ProcessChallengeToken end to end. Non-trivial: a distinct (message kind, charset/flag class, emptiness+length bucket of each name, script) tuple, a distinct (flags, name bucket, pair count, order, gaps) challenge, a distinct (wrapper kind, token length, state, mech) SPNEGO case.")
+	r.Rule("NEGOTIATE and AUTHENTICATE messages built for generated domain/workstation/user strings (empty, ASCII, BMP, non-BMP; 0..1000 code points and the 65535-byte descriptor limit), both character sets, challenge flag sets crossing UNICODE/OEM x VERSION x EXTENDED_SESSIONSECURITY x TARGET_INFO, read back by an independent MS-NLMP reader; CHALLENGE messages written by an independent writer (0..10 AV pairs, values 0..300 bytes, either payload order, gaps) parsed by the library; SPNEGO wrap/extract for token lengths 0..300, 65400..65700, 2^k+-1 (k<=20), random <=256 KiB, checked by an independent DER walker; ProcessChallengeToken end to end. State carried between calls: every builder output (NEGOTIATE, AUTHENTICATE, SPNEGO wrappers, context tokens) is held in a ring (64 entries / 4 MiB) beside a private copy and re-compared after each later call and at the end; parsers and wrappers get a private input buffer that must be unchanged after the call and is then overwritten with 0xAA (fixed CHALLENGE fields, extracted SPNEGO tokens, wrapped tokens must not change); one parsed CHALLENGE serves two AUTHENTICATE messages with different credentials (challenge must stay untouched, both verify); one AuthContext processes two different challenges (second output answers the second); 8 goroutines build/extract/authenticate unrelated cases and must get the single-caller results. Non-trivial: a distinct (message kind, charset/flag class, emptiness+length bucket of each name, script) tuple, a distinct (flags, name bucket, pair count, order, gaps) challenge, a distinct (wrapper kind, token length, state, mech) SPNEGO case.")
 	r.Assume(
 		"OEM character set is exercised with 7-bit ASCII only",
 		"names are decoded in the character set selected by the flags of the message itself (NEGOTIATE) or of the CHALLENGE (AUTHENTICATE); MS-NLMP 2.2.1.1's 'NEGOTIATE names are always OEM' is not demanded because the property says 'negotiated character set'",
@@ -948,6 +965,7 @@ func main() {
 		"names longer than 65535 encoded bytes are outside the domain of a 16-bit descriptor and are not generated",
 		"SPNEGO: only wrap/extract identity and DER well-formedness (definite, minimal lengths, exact total) are demanded, not RFC 4178's NegotiationToken CHOICE framing; for the empty token, 'no token found' is accepted",
 		"well-formed CHALLENGE: 56-byte fixed part with the Version field always present (zero unless NTLMSSP_NEGOTIATE_VERSION), Len==MaxLen, payload after the fixed part in either order with optional gaps, AV list terminated by MsvAvEOL with unique ids",
+		"ownership: ChallengeMessage.TargetName/TargetInfo and the values returned by ParseTargetInfo are views of the caller's buffer (zero-copy parse); that they change when the caller overwrites the buffer is counted (parse_challenge_payload_views_input, parse_target_info_values_view_input), not judged; the fixed-size fields, and everything the SPNEGO functions return, must be independent of the input after the call",
 		"the C02 verifier applied to every AUTHENTICATE reads UserName/DomainName from the message like a server; LM responses judged for 7-bit ASCII passwords only",
 	)
 	anchors()
@@ -956,5 +974,7 @@ func main() {
 	authenticateAll()
 	spnegoAll()
 	endToEndAll()
+	carryOver()
+	heldFinal()
 	r.Finish()
 }
